@@ -158,6 +158,7 @@ func (s *Session) RunCheck(ps *PropSpec, opts CheckOpts) int {
 	var results []*FuncResult
 	newFuncs := map[string]bool{}
 	var notes []string
+	notes = append(notes, ex.AliasNotes...)
 	if opts.Tier == "thorough" {
 		ps.Functions = append(ps.Functions, ps.ThoroughFunctions...)
 		// larger generation budgets for the functions reserved to this tier
